@@ -459,7 +459,7 @@ def _bump(d, k, n=1):
 
 def tasks(seed, tier):
     nt = 64 if tier == 'quick' else 640
-    per = 4 if tier == "quick" else 8
+    per = 3 if tier == "quick" else 6
     return [dict(seed=int(seed), idx=i, tier=tier, nruns=per) for i in range(nt)]
 
 
@@ -472,7 +472,7 @@ def run_task(task):
     t0 = time.process_time()
     done = 0
     for c in range(int(task['nruns'])):
-        if time.process_time() - t0 > 7.0 and task['tier'] == 'quick':
+        if time.process_time() - t0 > (7.0 if task['tier'] == 'quick' else 16.0):
             _bump(st, 'runs_skipped_for_time')
             continue
         run = gen_run(rng)
